@@ -294,7 +294,7 @@ void exhaustive(const vf::Options& o, vf::Tally& tally)
       c.via_lexicon = std::uint8_t(via);
       vf::Options big = o;
       big.extra["bytecap"] = "64";
-      vf::Outcome out = run_case(c, big);
+      vf::Outcome out = vf::run_enumerated("C03", run_case, c, big, to_text(c));
       vf::account(o, tally, to_text(c), "boundary sweep: " + sample(c), out);
    }
    tally.notes["exhaustive_part"] = "fixed boundary sweep (all lengths 0..40, granule, 64 KiB, pool roll-over, exact fill, oversize, every reserved word and 5 near misses each) through both routes";
